@@ -97,6 +97,7 @@ type Ex struct {
 	holds    map[*verifsim.Task]int
 	start    time.Time
 	serverClosed bool
+	nClose    int
 	closeTask *verifsim.Task
 	closeReturnedSeq int
 	apiTasks []*verifsim.Task
@@ -145,6 +146,15 @@ func (ex *Ex) draw(label string, n int) int {
 // ---------------------------------------------------------------------------------------------------
 
 func (ex *Ex) buildServer() {
+	ex.buildServerOnly()
+	if storeSetup != nil {
+		storeSetup(ex)
+	}
+}
+
+// buildServerOnly creates a broker with the run's configuration, hooks and listener (used at the start of a
+// run and again by engine B when the broker is restarted on the same store).
+func (ex *Ex) buildServerOnly() {
 	cfg := &ex.Plan.Cfg
 	caps := mqtt.NewDefaultServerCapabilities()
 	caps.MaximumQos = cfg.MaxQos
@@ -806,7 +816,12 @@ func (ex *Ex) startServerClose(op int) {
 	}
 	ex.serverClosed = true
 	ex.closeReturnedSeq = -1
-	ex.closeTask = ex.sc.Spawn("close", func() {
+	ex.nClose++
+	name := "close"
+	if ex.nClose > 1 {
+		name = fmt.Sprintf("close%d", ex.nClose)
+	}
+	ex.closeTask = ex.sc.Spawn(name, func() {
 		_ = ex.Srv.Close()
 		ex.closeReturnedSeq = ex.H.add(&Ev{Kind: "api", Conn: -1, Op: op, hasOp: true, Str: "close-returned"})
 	})
